@@ -40,6 +40,7 @@ def script(sc):
             sc.commit_all("pre")
             {"rebase": sc.op_rebase, "cherry": sc.op_cherry_pick, "squash": sc.op_squash_merge}[op]()
         elif op == "reset":
+            sc.begin_undoable()
             sc.do_edit(); sc.commit_all("to-undo")
             if rng.random() < 0.5:
                 sc.do_edit()
